@@ -159,8 +159,34 @@ func genPar(rt *rapid.T, rows int) int {
 	return rapid.SampledFrom(parChoices(rows)).Draw(rt, "parallelism")
 }
 
+// fresh-process probes (see ev.ProbeOrders): the FIRST conversion of a process - of each source type, through each
+// helper, at each parallelism - and the ones that follow it.  What the first call sets up (tables, pools, worker
+// state sized by its parallelism) serves the rest of the process.
+func init() {
+	for _, par := range []int{1, 2, 3, 6, 7, 16, 300} {
+		for _, typ := range []string{"RGBA", "NRGBA", "RGBA64", "NRGBA64", "YCbCr", "Paletted", "Gray"} {
+			for _, helper := range []string{"NRGBA", "RGBA", "RGBA64"} {
+				par, typ, helper := par, typ, helper
+				ev.RegisterProbe(fmt.Sprintf("first-%s-to-%s-par%d", typ, helper, par), func() string {
+					// a ramp with every alpha value near the ends and in the middle, then prng content
+					for i, fill := range []string{"ramp", "prng", "ff"} {
+						c := Case{Src: img.Spec{Type: typ, Rect: [4]int{0, 0, 64, 12}, Parent: [4]int{0, 0, 64, 12}, Fill: fill, Seed: uint64(7 + i), PalN: 256}, Helper: helper, Par: par}
+						if k, w, _ := check(c); k != "" {
+							return w
+						}
+					}
+					return ""
+				})
+			}
+		}
+	}
+}
+
 func TestC15(t *testing.T) {
 	if ev.Replaying() != nil {
+		if ev.ReplayOrder(t) {
+			return
+		}
 		var c Case
 		if err := ev.ReplayCase(&c); err != nil {
 			t.Fatal(err)
@@ -171,8 +197,9 @@ func TestC15(t *testing.T) {
 		fmt.Println("REPLAY case passed")
 		return
 	}
-	ev.Rule("rapid: source image of every standard type (RGBA64, NRGBA64, RGBA, NRGBA, YCbCr x 6 subsamplings, NYCbCrA, Gray, Gray16, Alpha, Alpha16, CMYK, Paletted, opaque wrapper), width/height 0..9, origin in [-6,6]^2 (non-negative for YCbCr), optionally a sub-image of a larger parent, pixel bytes prng/0xff/0/ramp; parallelism in {1,2,3,7,16,rows+5}; 3 helpers. Plus banners (1-3 rows of 64..20000 pixels, widths around powers of two, non-zero x origins, sub-images; a tenth of the rapid images and a sweep over every type x helper), a fixed cross-product types x helpers x parallelism on awkward geometry, and (thorough) all 2^24 YCbCr triples and every byte value in every channel position. non-trivial = distinct case whose source is handled by a hand-written loop, or has non-zero origin, or parallelism > rows")
+	ev.Rule("fresh-process probes: the first conversion of a process for 7 source types x 3 helpers x parallelism {1,2,3,6,7,16,300}, each probe once as the first action of a process, plus generated orders and environment presets; rapid: source image of every standard type (RGBA64, NRGBA64, RGBA, NRGBA, YCbCr x 6 subsamplings, NYCbCrA, Gray, Gray16, Alpha, Alpha16, CMYK, Paletted, opaque wrapper), width/height 0..9, origin in [-6,6]^2 (non-negative for YCbCr), optionally a sub-image of a larger parent, pixel bytes prng/0xff/0/ramp; parallelism in {1,2,3,7,16,rows+5}; 3 helpers. Plus banners (1-3 rows of 64..20000 pixels, widths around powers of two, non-zero x origins, sub-images; a tenth of the rapid images and a sweep over every type x helper), a fixed cross-product types x helpers x parallelism on awkward geometry, and (thorough) all 2^24 YCbCr triples and every byte value in every channel position. non-trivial = distinct case whose source is handled by a hand-written loop, or has non-zero origin, or parallelism > rows")
 	ev.Assume("image/draw.Draw with draw.Src is the reference conversion")
+	ev.ProbeOrders(ev.Pick(1, 10))
 	// fixed cross product on awkward geometry
 	for _, typ := range img.Types {
 		ratios := []int{0}
